@@ -730,6 +730,65 @@ fn keysets(max: usize) -> Vec<KeySet> {
     v
 }
 
+
+// ---------------------------------------------------------------------------------------------
+// objects whose keys collide after normalisation (outside the statement's domain for byte
+// equality, but inside its last sentence: different values never share canonical bytes)
+
+#[derive(Clone, Debug, Serialize, Deserialize)]
+pub struct Collision {
+    pub a: u16,
+    pub b: u16,
+    pub prefix: Vec<u16>,
+    pub a_first: bool,
+}
+
+fn collisions() -> Vec<Collision> {
+    let mut v = Vec::new();
+    for a in 128..N_ATOMS {
+        for b in 128..N_ATOMS {
+            if a != b && atom_nfc(a) == atom_nfc(b) && atom_raw(a) != atom_raw(b) {
+                for prefix in [vec![], vec![b'k' as u16], vec![b'"' as u16, 1]] {
+                    for a_first in [false, true] {
+                        v.push(Collision { a: a as u16, b: b as u16, prefix: prefix.clone(), a_first });
+                    }
+                }
+            }
+        }
+    }
+    v
+}
+
+fn check_collision(c: &Collision) -> Outcome {
+    let mut o = Outcome::new();
+    o.nontrivial = true;
+    o.shape = format!("{:?}", c);
+    let key = |x: u16| {
+        let mut k = c.prefix.clone();
+        k.push(x);
+        S(k)
+    };
+    let (ka, kb) = (key(c.a), key(c.b));
+    let both = if c.a_first { J::Obj(vec![(ka.clone(), J::U(1)), (kb.clone(), J::U(2))]) } else { J::Obj(vec![(kb.clone(), J::U(2)), (ka.clone(), J::U(1))]) };
+    let only_a = J::Obj(vec![(ka, J::U(1))]);
+    let only_b = J::Obj(vec![(kb, J::U(2))]);
+    let out = lib_canon(&Feed(&both, Order::AsIs));
+    match out {
+        Err(_) => o.label("collision-refused"),
+        Ok(bytes) => {
+            for (single, what) in [(&only_a, "the first"), (&only_b, "the second")] {
+                if lib_canon(&Feed(single, Order::AsIs)).ok().as_deref() == Some(&bytes[..]) {
+                    o.fail(format!(
+                        "an object with two members whose keys are equal after normalisation has the same canonical bytes as the object holding only {what} of them: {:?}",
+                        String::from_utf8_lossy(&bytes)
+                    ));
+                }
+            }
+        }
+    }
+    o
+}
+
 // ---------------------------------------------------------------------------------------------
 
 pub fn check(ctx: &Ctx) -> Vec<PartReport> {
@@ -756,6 +815,16 @@ pub fn check(ctx: &Ctx) -> Vec<PartReport> {
             require: vec![("float", (n as u64) / 50), ("odd-keys", (n as u64) / 20), ("value-path", (n as u64) / 10)],
         },
     ));
+    out.push(run_part(
+        ctx,
+        PartSpec {
+            name: "colliding-keys",
+            rule: "EXHAUSTIVE over the atom table: every ordered pair of different spellings with the same NFC form (precomposed / decomposed, singleton decompositions, reordered marks), with three key prefixes and both insertion orders, as the two keys of one object. Oracle (last sentence of the statement): the object is refused, or at least its canonical bytes differ from those of the objects holding only one of the two members. Non-trivial: all; distinct = case",
+            mode: Mode::Enumerate { cases: collisions(), complete: true },
+            prop: Box::new(check_collision),
+            require: vec![],
+        },
+    ));
     if ctx.tier == crate::engine::Tier::Thorough && !ctx.stop.load(std::sync::atomic::Ordering::Relaxed) {
         out.push(crate::fuzz::run(ctx, "C11", "cjson_diff", (5_000_000f64 * ctx.scale) as u64, 2048));
     }
@@ -767,6 +836,7 @@ pub fn replay(_ctx: &Ctx, part: &str, case: &Value) -> Outcome {
         return crate::fuzz::replay(t, case["input_hex"].as_str().unwrap_or(""));
     }
     match part {
+        "colliding-keys" => crate::engine::replay_case::<Collision>(case, check_collision),
         "keysets" => {
             let seen = Mutex::new(HashMap::new());
             crate::engine::replay_case::<KeySet>(case, |k| check_keyset(k, &seen))
